@@ -61,6 +61,8 @@ NatOf(s, i, acc) == IF i > Len(s) THEN acc ELSE NatOf(s, i + 1, acc * 10 + (s[i]
 IntDigits(s) == IF Len(s) > 0 /\ s[1] = 45 THEN SubSeq(s, 2, Len(s)) ELSE s
 IsInt(x) == x.k = "lit" /\ x.lang = <<>> /\ x.dt = XsdInteger /\ IsDigits(IntDigits(x.lex)) /\ Len(IntDigits(x.lex)) <= 6
 IntVal(x) == IF x.lex[1] = 45 THEN 0 - NatOf(IntDigits(x.lex), 1, 0) ELSE NatOf(x.lex, 1, 0)
+\* an xsd:integer of any size in canonical form: -?[1-9][0-9]* (zero is covered by IsInt)
+IsCanonicalBigInt(x) == x.k = "lit" /\ x.lang = <<>> /\ x.dt = XsdInteger /\ IsDigits(IntDigits(x.lex)) /\ IntDigits(x.lex)[1] # 48
 RECURSIVE NatLex(_)
 NatLex(n) == IF n < 10 THEN <<48 + n>> ELSE NatLex(n \div 10) \o <<48 + (n % 10)>>
 MkInt(n) == [k |-> "lit", lex |-> (IF n < 0 THEN <<45>> \o NatLex(0 - n) ELSE NatLex(n)), dt |-> XsdInteger, lang |-> <<>>]
@@ -150,6 +152,13 @@ EvalE(e, mu) ==
                          LET a == EvalE(e.a, mu) b == EvalE(e.b, mu) IN IF a.t = "err" \/ b.t = "err" THEN Err ELSE
                          LET x == AsTerm(a) y == AsTerm(b) IN IF ~(IsInt(x) /\ IsInt(y)) THEN Err
                          ELSE V(MkInt(CASE e.op = "add" -> IntVal(x) + IntVal(y) [] e.op = "sub" -> IntVal(x) - IntVal(y) [] OTHER -> IntVal(x) * IntVal(y)))
+    \* ---- unary minus / plus: on integers of ANY size, through the lexical form (canonical forms: no '+', no leading zero) ----
+    [] e.op \in {"neg", "pos"} ->
+                         LET a == EvalE(e.a, mu) IN IF a.t = "err" THEN Err ELSE
+                         LET x == AsTerm(a) IN
+                         IF IsInt(x) THEN V(MkInt(IF e.op = "neg" THEN 0 - IntVal(x) ELSE IntVal(x)))
+                         ELSE IF IsCanonicalBigInt(x) THEN V(IF e.op = "pos" THEN x ELSE [x EXCEPT !.lex = IF x.lex[1] = 45 THEN SubSeq(x.lex, 2, Len(x.lex)) ELSE <<45>> \o x.lex])
+                         ELSE Err
     \* ---- functional forms ----
     [] e.op = "sameterm" -> LET a == EvalE(e.a, mu) b == EvalE(e.b, mu) IN IF a.t = "err" \/ b.t = "err" THEN Err ELSE B(AsTerm(a) = AsTerm(b))
     [] e.op = "if"    -> LET c == Ebv(EvalE(e.c, mu)) IN IF c.t = "err" THEN Err ELSE IF c.b THEN EvalE(e.a, mu) ELSE EvalE(e.b, mu)
